@@ -152,6 +152,8 @@ func c07Render(rec *c07Rec, raw []byte) *ProgCase {
 			case "ret":
 				fmt.Fprintf(&b, "\treturn %d\n", op.V)
 				terminated = pc == len(ops)
+			case "bp":
+				fmt.Fprintf(&b, "\t_ = \"break\"\n")
 			case "spin":
 				fmt.Fprintf(&b, "\tfor k := 0; k < 100; k++ {\n\t\tsink++\n\t}\n")
 			}
